@@ -747,6 +747,46 @@ def case_infinite(ctx, i):
                     raise
                 ctx.violation('MPO.extract_segment:raises-%s' % type(e).__name__, tb[-500:], case)
                 return
+            # the same through the model: MPOModel.extract_segment / enlarge_mps_unit_cell (lattice and MPO change together)
+            try:
+                from tenpy.models.model import MPOModel as _MPOModel
+                mm = _MPOModel(lat, H)
+                seg_m = mm.extract_segment(0, Wn - 1)
+                ctx.count('infinite.model_segment_checked')
+                Hsm = window_matrix(seg_m.H_MPO, Wn)
+                if seg_m.H_MPO.explicit_plus_hc:
+                    Hsm = Hsm + Hsm.conj().T
+                if seg_m.lat.N_sites != Wn or seg_m.lat.bc_MPS != 'segment' or tuple(seg_m.lat.segment_first_last) != (0, Wn - 1):
+                    ctx.violation('MPOModel.extract_segment:lattice', 'N_sites %d bc %r first/last %r for segment (0, %d)' %
+                                  (seg_m.lat.N_sites, seg_m.lat.bc_MPS, getattr(seg_m.lat, 'segment_first_last', None), Wn - 1), case)
+                    return
+                if not (np.linalg.norm(Hsm - ref_w) <= 1e-9 * max(1.0, np.linalg.norm(ref_w))):
+                    ctx.violation('MPOModel.extract_segment:differs-from-recorded-terms', '|segment - reference| = %g' % np.linalg.norm(Hsm - ref_w), case)
+                    return
+                if mm.lat.N_sites != L or mm.H_MPO.L != L:
+                    ctx.violation('MPOModel.extract_segment:changes-the-original', '', case)
+                    return
+                import copy as _copy
+                m2 = _MPOModel(lat.copy(), H.copy())  # (the lattice copy shares the site objects with the MPO)
+                fac = int(rng.integers(2, 4))
+                m2.enlarge_mps_unit_cell(fac)
+                ctx.count('infinite.model_enlarged_checked')
+                if m2.lat.N_sites != fac * L or m2.H_MPO.L != fac * L:
+                    ctx.violation('MPOModel.enlarge_mps_unit_cell:sizes', 'lattice %d, MPO %d for factor %d of %d sites' % (m2.lat.N_sites, m2.H_MPO.L, fac, L), case)
+                    return
+                m2.test_sanity()
+                Hw2 = window_matrix(m2.H_MPO, Wn)
+                if m2.H_MPO.explicit_plus_hc:
+                    Hw2 = Hw2 + Hw2.conj().T
+                if not (np.linalg.norm(Hw2 - ref_w) <= 1e-9 * max(1.0, np.linalg.norm(ref_w))):
+                    ctx.violation('MPOModel.enlarge_mps_unit_cell:operator-changed', '|window - reference| = %g' % np.linalg.norm(Hw2 - ref_w), case)
+                    return
+            except Exception as e:
+                tb = traceback.format_exc()
+                if '/tenpy/' not in tb:
+                    raise
+                ctx.violation('MPOModel.segment-or-enlarge:raises-%s' % type(e).__name__, tb[-500:], case)
+                return
             if not (np.linalg.norm(Hw - ref_w) <= 1e-9 * max(1.0, np.linalg.norm(ref_w))):
                 ctx.violation('infinite:MPO-window-differs-from-recorded-terms', '|window(H_MPO) - sum of the translates of the recorded terms '
                               'inside %d sites| = %g (|ref| = %g, %d terms inside)' % (Wn, np.linalg.norm(Hw - ref_w), np.linalg.norm(ref_w), n_in), case)
